@@ -71,6 +71,7 @@ FACTORY_PROFILES = [
         "params": [("constructors", "List (String × C)"), ("call", "C → Py.M T"), ("key", "String")],
         "locals": {}, "ret": "T",
         "externals": [("_0 in self.constructors", "(Py.Dict.mem constructors {0})", "Bool", True, ["String"]),
+                      ("_0 not in self.constructors", "(!(Py.Dict.mem constructors {0}))", "Bool", True, ["String"]),
                       ("self.constructors[_0]", "(Py.Dict.get constructors {0})", "C", False, ["String"]),
                       ("_0(**kwargs)", "(call {0})", "T", False, ["C"])],
     },
@@ -80,6 +81,7 @@ FACTORY_PROFILES = [
         "params": [("tbl", "Lang.Table"), ("key", "String")],
         "locals": {}, "ret": "Lang.Elem",
         "externals": [("_0 in self.objects", "(Lang.Table.lookup tbl {0}).isSome", "Bool", True, ["String"]),
+                      ("_0 not in self.objects", "(Lang.Table.lookup tbl {0}).isNone", "Bool", True, ["String"]),
                       ("self.objects[_0]", "(Py.lookupElem tbl {0})", "Lang.Elem", False, ["String"]),
                       ("copy.deepcopy(_0)", "{0}", "Lang.Elem", True, ["Lang.Elem"])],
     },
